@@ -43,7 +43,7 @@ Proof.
   unfold concat_map. induction ps as [|p ps IH]; intro H; [split; reflexivity|].
   cbn [forallb] in H. apply andb_prop in H as [Hp Hl]. apply andb_prop in Hp as [Hne Hlt].
   destruct (IH Hl) as [I1 I2]. cbn [map enc_list concat forallb]. rewrite I1, I2. cbn [enc wf].
-  rewrite wr_lp_ok by (apply N.ltb_lt in Hlt; exact Hlt). rewrite Hne. split; reflexivity.
+  rewrite wr_lp_ok by (apply N.ltb_lt in Hlt; exact Hlt). cbn [andb]. rewrite Hne. split; reflexivity.
 Qed.
 
 (* ---------- one configured extension ---------- *)
@@ -109,9 +109,12 @@ Proof.
     destruct (enc_list_alpn ps C2) as [E1 E2].
     set (b := be_enc 2 (blen entries) ++ entries).
     assert (He : enc f_alpn (VL (map VB ps)) = Some b).
-    { unfold f_alpn. cbn [enc]. rewrite E1. fold entries. apply wr_lp_ok. change (256 ^ N.of_nat 2) with 65536. lia. }
+    { change (enc f_alpn (VL (map VB ps))) with
+        (match enc_list (enc (FBytes 1 true)) (map VB ps) with Some body => wr_lp 2 body | None => None end).
+      rewrite E1. fold entries. apply wr_lp_ok. change (256 ^ N.of_nat 2) with 65536. lia. }
     assert (Hwf : wf f_alpn (VL (map VB ps)) = true).
-    { unfold f_alpn. cbn [wf]. rewrite E2. destruct ps; [discriminate|reflexivity]. }
+    { change (wf f_alpn (VL (map VB ps))) with (negb (true && is_nil (map VB ps)) && forallb (wf (FBytes 1 true)) (map VB ps)).
+      rewrite E2. destruct ps; [discriminate|reflexivity]. }
     right. exists 16, b, (ent 16 8 (h_app f_alpn)), (VL (unVL' (sget 8 st) ++ map VB ps)).
     split; [reflexivity|]. split; [reflexivity|]. split.
     { unfold b. rewrite blen_app, blen_be_enc. lia. }
@@ -260,9 +263,9 @@ Qed.
 (* ---------- non-vacuity and the repaired defect ---------- *)
 Definition ex_cfg : fp_cfg :=
   mkCfg 771 [] true [1; 2; 3] [49195; 255] [0]
-    [XSNI [[97; 46; 98]]; XNull; XStatusReq; XCurves [29; 23]; XPoints [0]; XTicket []; XSigAlgs [1027; 1025];
+    [XSNI [[97; 46; 98]]; XNull; XStatusReq; XCurves [29; 23]; XPoints [0]; XTicket []; XSigAlgs [1537; 1025];
      XALPN [[104; 50]; [104; 116; 116; 112]]; XSecureReneg; XEMS; XSCT; XSNI []]
-    false.
+    true.
 Definition ex_ts : bytes := [1; 2; 3; 4].
 Definition ex_rnd : bytes := nrep 32 9.
 
